@@ -34,7 +34,7 @@ def _keep(e):
             return True
         t = e.d["target"]
         return t.endswith(".service_start_date") or t.endswith(".server") or t.endswith(".cust") or t.endswith(".busy")
-    return e.kind in ("iter",)
+    return e.kind in ("iter", "return", "leave")
 
 
 class Site:
@@ -64,6 +64,49 @@ def _defs(events, upto):
     return d
 
 
+def origin(evs, upto, name):
+    """follow a tagged local name back through local copies and the return values of spliced helpers
+    -> (value_node, frame, index) of the expression that produced the object, or None"""
+    last = None
+    for _ in range(12):
+        hit = None
+        for j in range(upto - 1, -1, -1):
+            e = evs[j]
+            if e.kind == "assign" and e.d.get("local") and e.d["target"] == name:
+                hit = (j, e)
+                break
+        if hit is None:
+            return last
+        j, e = hit
+        vn, fr = e.d.get("value_node"), e.frame
+        for _ in range(12):
+            ret = None
+            if isinstance(vn, ast.Call):
+                for k in range(j - 1, -1, -1):
+                    x = evs[k]
+                    if x.kind == "leave" and x.node is vn and x.frame.fid == fr.fid:
+                        for r in range(k - 1, -1, -1):
+                            y = evs[r]
+                            if y.kind == "return" and y.frame.callsite is vn and y.frame.parent is not None and y.frame.parent.fid == fr.fid:
+                                ret = (r, y)
+                                break
+                            if y.kind == "enter" and y.node is vn and y.frame.fid == fr.fid:
+                                break
+                        break
+                    if x.kind == "enter" and x.node is vn and x.frame.fid == fr.fid:
+                        break
+            if ret is None:
+                break
+            j, y = ret
+            vn, fr = y.d.get("value_node"), y.frame
+        last = (vn, fr, j)
+        if isinstance(vn, ast.Name):
+            name, upto = vn.id + fr.tag, j
+            continue
+        return last
+    return last
+
+
 def _is_call_to(node, name):
     return isinstance(node, ast.Call) and call_name(node) == name
 
@@ -84,7 +127,8 @@ def classify_server(site):
             return "ALREADY-ATTACHED", False
     d = _defs(evs, i)
     if s in d:
-        vn = d[s].d.get("value_node")
+        o = origin(evs, i, s)
+        vn = o[0] if o else d[s].d.get("value_node")
         if _is_call_to(vn, "find_free_server"):
             tested = guards.implies(pc, guards.neg(("isnone", s)))[0]
             return "FIND", tested
@@ -113,7 +157,8 @@ def classify_customer(site, root_params):
     pc = site.pc()
     d = _defs(evs, i)
     if c in d:
-        vn = d[c].d.get("value_node")
+        o = origin(evs, i, c)
+        vn = o[0] if o else d[c].d.get("value_node")
         if _is_call_to(vn, "choose_next_customer"):
             return "CHOSEN", guards.implies(pc, guards.neg(("isnone", c)))[0]
         txt = unparse(vn).replace(" ", "") if vn is not None else ""
